@@ -183,6 +183,17 @@ def run(unit, em):
         elif short.endswith('ExplicitTreeAutCore::ComplementWithPreorder'):
             em.anchor(fn, 'ExplicitTreeAutCore::ComplementWithPreorder')
             wrapper(unit, fn, em)
+        elif short.endswith('ExplicitTreeAutCore::Complement') and 'comp_down' in fn.file:
+            # clause `wrap`, entry point: every complement is computed by the construction — no shortcut result (the complement
+            # of an automaton without states is the universal automaton over the alphabet, not the empty one; seed C06-6)
+            for r in fn.walk(lambdas=False):
+                if r['k'] != 'ReturnStmt':
+                    continue
+                if any(x['k'] in ('CXXMemberCallExpr', 'CallExpr') and method_name(x) in ('ComplementWithPreorder', 'Compute') for x in walk(r)):
+                    em.ok(r, unit.text(r, 60), 'the result comes from the construction', 'wrap')
+                else:
+                    em.violation(r, unit.text(r, 60), 'Complement() returns a result that the construction did not compute: every special case (no states, no final states, no rules) is handled '
+                                 'by Compute itself, whose answer for an automaton with empty language is the universal automaton over the alphabet', 'wrap')
 
 
 # ---------------------------------------------------------------------------------------------------- Compute
